@@ -49,7 +49,9 @@ def make_specs(ctx: Ctx, n):
         init = qinit(gen.rand_initial_states(rng, m, na, integer=int_init))
         mode = i % 3
         if mode == 0:      # value arrays produced by solve and handed to the simulate target
-            plan = [{"op": "simulate", "target": "simulate", "init": init, "seed": rng.randrange(10**6), "vsrc": "given", "int_init": int_init}]
+            # every other such case also records the intermediate state of each period (hooks) for step localisation
+            plan = [{"op": "simulate", "target": "simulate", "init": init, "seed": rng.randrange(10**6), "vsrc": "given", "int_init": int_init,
+                     "record_steps": i % 6 == 0}]
             kind = "arrays from solve"
         elif mode == 1:    # the combined target: arrays in use = the model's solution
             plan = [{"op": "simulate", "target": "solve_and_simulate", "init": init, "seed": rng.randrange(10**6), "vsrc": "own", "int_init": int_init}]
